@@ -84,6 +84,16 @@ func (s *MergeExp) HasRef() bool {
 	return len(mapSourceRefs(s.MergeOver)) > 0
 }
 
+// SourceRefs returns the references which determine how many values the
+// merge collects, if no node which forks with the call is known and the
+// number is not known statically.
+func (m *MergeExp) SourceRefs() []*RefExp {
+	if m == nil || m.ForkNode != nil {
+		return nil
+	}
+	return mapSourceRefs(m.MergeOver)
+}
+
 // mapSourceRefs returns the references which determine the length or keys of
 // the given source, if they are not known statically.
 func mapSourceRefs(src MapCallSource) []*RefExp {
